@@ -68,6 +68,7 @@ type hsResult struct {
 	Frames     [2][]sectest.Frame
 	HSFrames   [2]int // number of handshake frames per direction (frames starting before the writer's handshake returned)
 	EditedType byte
+	NoEffect   bool // the edit replaced bytes by equal bytes
 	Bubble     run.BubbleResult
 }
 
@@ -180,6 +181,18 @@ func (s *session) wait() {
 			if f.Start < hs[d] {
 				res.HSFrames[d]++
 			}
+		}
+	}
+	// an edit that left the handshake bytes the receiver saw identical to what was sent (a truncation
+	// refilled by an equal byte of the following frame) did not alter the handshake data
+	if e := c.Edit; e != nil && res.Applied && e.Kind != "dup" && e.Kind != "ext" { // those have their own (trailing) rule
+		w := res.Init
+		if e.Dir == 1 {
+			w = res.Resp
+		}
+		if w.OK && m.Unaltered(e.Dir, hs[e.Dir]) {
+			res.Applied = false
+			res.NoEffect = true
 		}
 	}
 	if e := c.Edit; e != nil && e.Msg < len(res.Frames[e.Dir]) {
@@ -506,6 +519,9 @@ func (s *state) tamperSweep() {
 			res := runCase(s.t, &c, nil)
 			s.r.Eval(1)
 			s.report(&c, &res)
+			if res.NoEffect {
+				s.r.Count("edits_replaced_equal_bytes", 1)
+			}
 			if !res.Applied {
 				s.r.Count("edits_not_applied", 1)
 				return
